@@ -713,6 +713,14 @@ void mon_inbound(const Run& run, const Ix&, Verdicts& v, vu::Result& res) {
     }
 }
 
+// DISCONNECTs the library sends on its own account carry one of its fixed reason strings
+bool library_own_disconnect(const ref::Packet& p) {
+    if (p.type != ref::DISCONNECT || (p.rc != 0x80 && p.rc != 0x81 && p.rc != 0x82)) return false;
+    for (auto& x : p.props) if (x.id == 0x1F)
+        for (const char* pre : {"Re-authentication", "Malformed", "No reply received", "Unexpected AUTH", "Unexpected"}) if (x.s1.rfind(pre, 0) == 0) return true;
+    return false;
+}
+
 // ------------------------------------------------------------------------------------------------ C09
 void mon_disconnect(const Run& run, const Ix&, Verdicts& v, vu::Result& res) {
     const History& h = run.w->h;
@@ -755,6 +763,11 @@ void mon_disconnect(const Run& run, const Ix&, Verdicts& v, vu::Result& res) {
                 for (auto* k : pk) if (k->dec.status == ref::Status::ok && k->dec.pkt.type == ref::DISCONNECT) has = true;
                 if (!has) { v.add("C09", "C09:packet-ahead-of-disconnect", "connection " + std::to_string(c.id) + ": " + (pk.empty() ? std::string("bytes") : std::string(ref::type_name(pk[0]->dec.pkt.type))) + " written after async_disconnect was initiated, ahead of the DISCONNECT"); continue; }
                 if (pk.size() != 1) v.add("C09", "C09:disconnect-not-alone", "connection " + std::to_string(c.id) + ": DISCONNECT batched with " + std::to_string(pk.size() - 1) + " other packet(s)");
+                else if (!is_expected_disconnect(pk[0]->dec.pkt, c) && library_own_disconnect(pk[0]->dec.pkt) && pk[0]->dec.pkt.rc != d.disc_rc) {
+                    // a DISCONNECT the library had decided on itself (failed re-authentication, malformed packet, no reply for 20 s)
+                    // and that was queued ahead of the application's: not this operation's packet
+                    res.count("library_own_disconnects_ahead_of_the_call");
+                }
                 else if (!is_expected_disconnect(pk[0]->dec.pkt, c)) v.add("C09", "C09:disconnect-contents", "connection " + std::to_string(c.id) + ": DISCONNECT differs from the request: " + pk[0]->dec.pkt.str());
                 seen_disconnect = true; sent_somewhere = true;
             }
